@@ -39,7 +39,7 @@ ASSUMPTIONS = ['indentwidth is an integer (0-8 in the monitor domain); programs 
                'interior lines of multi-line block comments and long strings are token content, not layout: re-indentations leave them alone',
                'blank lines before the first line of the file are not "separating lines" (the output may start with up to two)']
 CLAIM = dict(
-    text=("Fifteen theorems in Properties/C10.v (Coq, closed under the global context) about fmt_run, the model of the 15-step re.sub "
+    text=("Seventeen theorems in Properties/C10.v (Coq, closed under the global context) about fmt_run, the model of the 15-step re.sub "
           "pipeline of LuaFormatterWriter._get_code_for_spaces, for white-space/comment runs of EVERY length, every indent width and "
           "depth, at the start / middle / end of the file: C10_run_canonical_form (exact line-by-line form of the output), "
           "C10_run_depends_on_norm (runs equal modulo blanks at line edges are formatted identically: re-indentation invariance "
@@ -47,7 +47,9 @@ CLAIM = dict(
           "C10_run_no_trailing_blank, C10_run_blank_lines (never three line feeds in a row), C10_run_end_of_file, "
           "C10_run_keeps_comment_text (only white space moves), C10_run_idempotent (formatting a formatted run changes "
           "nothing); and four theorems about the whole output as a list of writer chunks (C10_indent_partial, C10_first_line_partial, "
-          "C10_shape_partial, C10_reindent_partial) that reduce the whole-program clauses to facts about the writer walk. Regex sources, guards, replacement expressions, order, and the whole function text "
+          "C10_shape_partial, C10_reindent_partial) that reduce the whole-program clauses to facts about the writer walk, and two about "
+          "the model of the walk itself (Model/AstWriter.v): the nesting counter is balanced and never negative "
+          "(C10_walk_indent_balanced, C10_writer_indent_nonneg). Regex sources, guards, replacement expressions, order, and the whole function text "
           "are regenerated from lua.py on every run and pinned. Tie: the extracted model equals the real method on ALL runs of length "
           "<= 5 (thorough 6) over {space,tab,\\n,\\r,-,/,a} x 4 positions x 3 (width,depth), on random long runs, and on every "
           "_get_code_for_spaces call made inside real luafmt runs on generated programs; the extracted holds_C10 (reference reader "
